@@ -843,6 +843,84 @@ func (e *Env) callExpr(ex *ast.CallExpr) (SVal, error) {
 		r.Len = plus(sv.Len, "1")
 		r.Loc = "spec:" + r.Loc
 		return r, nil
+	case "has", "mapval":
+		// has(m, k): the map m holds key k; mapval(m, k): the value stored under k. `m'` names the map after the callback.
+		if len(ex.Args) != 2 {
+			return SVal{}, fmt.Errorf("%s(m, k)", fname)
+		}
+		post := false
+		if id, ok := ex.Args[0].(*ast.Ident); ok && strings.HasSuffix(id.Name, "__post") {
+			post = true
+		}
+		mv, err := e.eval(ex.Args[0])
+		if err != nil {
+			return SVal{}, err
+		}
+		if mv.K != KMap {
+			return SVal{}, fmt.Errorf("%s: not a map", fname)
+		}
+		kv, err := e.eval(ex.Args[1])
+		if err != nil {
+			return SVal{}, err
+		}
+		mt, _ := isMap(mv.GoT)
+		vs := "U"
+		var et types.Type
+		if mt != nil {
+			vs = sortOf(mt.Elem())
+			et = mt.Elem()
+		}
+		has, vals := e.X.mapArrays(e.St, mv, vs)
+		if e.Old && !post {
+			// the map before the callback: the pre-state symbols (a map made inside the callback has none)
+			if _, ok := e.X.D.consts[sanitize(mv.Loc+"#has")]; ok {
+				has = q(e.X.D.constOf(mv.Loc+"#has", "(Array U Bool)"))
+				vals = q(e.X.D.constOf(mv.Loc+"#val", "(Array U "+vs+")"))
+			}
+		}
+		kt := e.X.keyTerm(e.St, kv)
+		if fname == "has" {
+			return mkBool("(select " + has + " " + kt + ")"), nil
+		}
+		t := "(select " + vals + " " + kt + ")"
+		if et != nil {
+			return e.X.unbox(e.St, t, et), nil
+		}
+		return mkU(t), nil
+	case "keysadded", "mapsame":
+		// keysadded(m, k...): after the callback the map m holds exactly the keys it held before plus k...; mapsame(m): unchanged
+		if len(ex.Args) < 1 {
+			return SVal{}, fmt.Errorf("%s(m, ...)", fname)
+		}
+		c := e.sub()
+		c.Old = false
+		mv, err := c.eval(ex.Args[0])
+		if err != nil {
+			return SVal{}, err
+		}
+		if mv.K != KMap {
+			return SVal{}, fmt.Errorf("%s: not a map", fname)
+		}
+		mt, _ := isMap(mv.GoT)
+		vs := "U"
+		if mt != nil {
+			vs = sortOf(mt.Elem())
+		}
+		has, vals := e.X.mapArrays(e.St, mv, vs)
+		has0 := q(e.X.D.constOf(mv.Loc+"#has", "(Array U Bool)"))
+		vals0 := q(e.X.D.constOf(mv.Loc+"#val", "(Array U "+vs+")"))
+		if fname == "mapsame" {
+			return mkBool(and(eq(has, has0), eq(vals, vals0))), nil
+		}
+		want := has0
+		for _, ka := range ex.Args[1:] {
+			kv, err := e.eval(ka)
+			if err != nil {
+				return SVal{}, err
+			}
+			want = "(store " + want + " " + e.X.keyTerm(e.St, kv) + " true)"
+		}
+		return mkBool(eq(has, want)), nil
 	case "fresh":
 		// fresh(s): the slice s (current value) shares no array with a slice passed to an event on this path
 		c := e.sub()
@@ -1066,6 +1144,27 @@ func (e *Env) matchEvent(p ast.Expr, ev Event) (string, error) {
 				return "", err
 			}
 			cs = append(cs, c)
+			continue
+		}
+		if fc, ok := a.(*ast.CallExpr); ok && exprString(fc.Fun) == "elems" {
+			// elems(a, b, ...): the argument is a slice of exactly these elements (as it was when it was passed)
+			sl := ev.Args[i]
+			if sl.K != KSlice {
+				cs = append(cs, "false")
+				continue
+			}
+			arr := sl.Snap
+			if arr == "" {
+				arr = e.X.arrTerm(e.St, sl)
+			}
+			cs = append(cs, eq(sl.Len, intLit(int64(len(fc.Args)))))
+			for j, fa := range fc.Args {
+				fv, err := e.eval(fa)
+				if err != nil {
+					return "", err
+				}
+				cs = append(cs, eq("(select "+arr+" "+plus(sl.Off, intLit(int64(j)))+")", e.X.termOf(e.St, fv)))
+			}
 			continue
 		}
 		v, err := e.eval(a)
